@@ -1,5 +1,5 @@
 /-
-Proofs/CorruptOps.lean — edit operators on DFA definitions used by the operator-level
+Proofs/CorruptOps.lean — edit operators on DFA / NFA definitions used by the operator-level
 corruption theorems of Props/C19.lean (core only).
 -/
 import AutomataVerif.Proofs.ValidateRules
@@ -94,5 +94,27 @@ theorem setEntry_rows (d : DFA σ α) (q : σ) (a : α) (t : σ) :
   split
   · exact ⟨fun e he => mem_ainsert a t kv.2 e he, fun x hx => akeys_ainsert_sup a t kv.2 x hx⟩
   · exact ⟨fun e he => Or.inr he, fun x hx => hx⟩
+
+/-- `transitions[q][a] = ts` on an NFA (Python dict assignment). -/
+def NFA.setEntry (n : NFA σ α) (q : σ) (a : Option α) (ts : List σ) : NFA σ α :=
+  { n with trans := n.trans.map fun kv => if kv.1 = q then (kv.1, ainsert a ts kv.2) else kv }
+
+theorem NFA.setEntry_keys (n : NFA σ α) (q : σ) (a : Option α) (ts : List σ) :
+    akeys (NFA.setEntry n q a ts).trans = akeys n.trans := by
+  simp only [NFA.setEntry, akeys, List.map_map]
+  apply List.map_congr_left
+  intro kv _
+  simp only [Function.comp]
+  split <;> rfl
+
+theorem NFA.setEntry_rows (n : NFA σ α) (q : σ) (a : Option α) (ts : List σ) :
+    ∀ kv' ∈ (NFA.setEntry n q a ts).trans, ∃ kv ∈ n.trans, ∀ e ∈ kv'.2, e = (a, ts) ∨ e ∈ kv.2 := by
+  intro kv' hkv'
+  simp only [NFA.setEntry, List.mem_map] at hkv'
+  obtain ⟨kv, hkv, rfl⟩ := hkv'
+  refine ⟨kv, hkv, ?_⟩
+  split
+  · exact fun e he => mem_ainsert a ts kv.2 e he
+  · exact fun e he => Or.inr he
 
 end AV.VA
